@@ -84,6 +84,14 @@ impl Serialize for S4 {
     }
 }
 
+/// shape 5: 128-bit integers (values outside the 64-bit range do not fit a
+/// serde_json::Value number)
+#[derive(Serialize, Deserialize, Debug, Clone, PartialEq)]
+struct S5 {
+    big: u128,
+    neg: i128,
+}
+
 trait Shape: Serialize + DeserializeOwned + Debug + Clone + PartialEq + 'static {
     /// a selector whose variable-length part is `fill`
     fn with_fill(fill: &str, rng: &mut Rng) -> Self;
@@ -129,6 +137,12 @@ impl Shape for S4 {
     }
 }
 
+impl Shape for S5 {
+    fn with_fill(fill: &str, _rng: &mut Rng) -> Self {
+        S5 { big: fill.len() as u128, neg: -(fill.len() as i128) }
+    }
+}
+
 const SHAPES: [&str; 3] = ["s1", "s2", "s3"];
 
 // ---------------------------------------------------------------- cases
@@ -148,6 +162,10 @@ enum Edit {
 enum Case {
     /// issue a token for `sel` through ResultsPage::new and feed it back
     Issue { shape: String, sel: Value },
+    /// the same for the 128-bit selector {big: u128, neg: i128}; the values are
+    /// written as decimal strings (a JSON number of the case file could not
+    /// hold them)
+    Issue128 { big: String, neg: String },
     /// present `token` as page_token; `from`: the selector it is claimed to
     /// have been issued for (re-checked here)
     Accept { shape: String, token: String, from: Option<Value> },
@@ -532,11 +550,7 @@ fn issue_lsel(last: u64) -> Option<String> {
 
 // ---------------------------------------------------------------- exec
 
-fn exec_shape<S: Shape>(case: &Case, live: &mut Option<LiveServer>) -> Vec<Line> {
-    let cj = serde_json::to_value(case).unwrap();
-    match case {
-        Case::Issue { shape, sel } => {
-            let s: S = serde_json::from_value(sel.clone()).expect("selector of the shape");
+fn exec_issue<S: Shape>(shape: &str, s: S, cj: Value) -> Vec<Line> {
             let selj = serde_json::to_vec(&s).unwrap_or_else(|_| b"<unserialisable>".to_vec());
             let env = own_envelope_opt(&s);
             let r = issue(&s);
@@ -578,7 +592,16 @@ fn exec_shape<S: Shape>(case: &Case, live: &mut Option<LiveServer>) -> Vec<Line>
                 tags: [vec![format!("issue:{}:len{}", shape, band), format!("issue:{}", if r.is_ok() { "ok" } else { "refused" })], large].concat(),
                 nontrivial: true,
             }]
+}
+
+fn exec_shape<S: Shape>(case: &Case, live: &mut Option<LiveServer>) -> Vec<Line> {
+    let cj = serde_json::to_value(case).unwrap();
+    match case {
+        Case::Issue { shape, sel } => {
+            let s: S = serde_json::from_value(sel.clone()).expect("selector of the shape");
+            exec_issue(shape, s, cj)
         }
+        Case::Issue128 { .. } => unreachable!("dispatched in exec"),
         Case::Accept { shape, token, from } => {
             let ti = tokinfo::<S>(token, from);
             let obs = run_query::<S>(&format!("page_token={}", enc(token)));
@@ -784,9 +807,25 @@ fn env_oracle_lsel(bytes: &[u8]) -> (EnvO, u64) {
 }
 
 fn exec(case: &Case, live: &mut Option<LiveServer>) -> Vec<Line> {
+    if let Case::Issue128 { big, neg } = case {
+        let s = S5 { big: big.parse().expect("u128"), neg: neg.parse().expect("i128") };
+        let mut lines = exec_issue("s5", s, serde_json::to_value(case).unwrap());
+        for l in lines.iter_mut() {
+            l.tags.push("issue:128-bit".to_string());
+            let out = |v: &str, lo: i128, hi: u128| match v.parse::<i128>() {
+                Ok(x) => x < lo || (x > 0 && (x as u128) > hi),
+                Err(_) => true,
+            };
+            if out(big, 0, u64::MAX as u128) || out(neg, i64::MIN as i128, i64::MAX as u128) {
+                l.tags.push("issue:128-bit:outside-64-bit-range".to_string());
+            }
+        }
+        return lines;
+    }
     let shape = match case {
         Case::Issue { shape, .. } | Case::Accept { shape, .. } | Case::Grid { shape, .. } | Case::Query { shape, .. } => shape.as_str(),
         Case::Live { .. } => "s1",
+        Case::Issue128 { .. } => unreachable!(),
     };
     match shape {
         "s1" => exec_shape::<String>(case, live),
@@ -1446,6 +1485,17 @@ fn generate(opts: &Opts) -> Vec<Case> {
     }
     gen_live(&mut rng, opts.thorough, &mut cases);
     gen_large(&mut rng, opts.thorough, &mut cases);
+    // 128-bit selectors, at and beyond the 64-bit bounds
+    let bigs = ["0", "18446744073709551615", "18446744073709551616", "18446744073709551617", "1267650600228229401496703205376",
+        "170141183460469231731687303715884105727", "170141183460469231731687303715884105728", "340282366920938463463374607431768211455"];
+    let negs = ["0", "-1", "9223372036854775807", "9223372036854775808", "18446744073709551616", "-9223372036854775808", "-9223372036854775809",
+        "-1267650600228229401496703205376", "-170141183460469231731687303715884105728", "170141183460469231731687303715884105727"];
+    for (i, b) in bigs.iter().enumerate() {
+        cases.push(Case::Issue128 { big: b.to_string(), neg: negs[i % negs.len()].to_string() });
+    }
+    for (i, n) in negs.iter().enumerate() {
+        cases.push(Case::Issue128 { big: bigs[(i * 3) % bigs.len()].to_string(), neg: n.to_string() });
+    }
     // the driver cuts the output into consecutive shards: mix the groups so
     // that every shard gets a similar load
     rng.shuffle(&mut cases);
